@@ -429,7 +429,7 @@ theorem expansion_refines_partial (fx : Bool) (env : Env) (tbl : Table) (hg : Go
 /-- non-vacuity of `Good`: the initial frame and table of the language without `\expandafter` (code as is) and of the whole
     language (repaired variant) satisfy it -/
 example : Good false noEAEnv noEATable := (envRel_noEA false).1
-example : Good true initEnv primTable := envRel_language.1
+example : Good true initEnv condTable := envRel_language.1
 
 /-- `\def\zq{a}\csname \zq\endcsname` style: the name is built through a macro; both sides evaluated -/
 example : (texCsname 10 (tblOf noEAPairs ++ [(nm "zq", .macro ⟨[], []⟩ [.tok (lt 'b')])]) [] [lt 'a', cs "zq", cs "endcsname", lt 'x']).toOption
@@ -459,22 +459,24 @@ def noEAExample : List Tok :=
 example : (texRun fragOk 60 ⟨noEAExample, noEATable, []⟩).toOption = some ("(D,x)(o,y)<z>(D,w)".toList.map Char.toNat) := by rfl
 example : run false 60 ⟨noEAExample, noEAEnv⟩ = .ok ("(D,x)(o,y)<z>(D,w)".toList.map Char.toNat) := by rfl
 
-/-- **Program-level equality for the whole macro language (repaired variant of D49).**  `texRun fragOk … ⟨p, primTable, []⟩`
-    is the Spec's evaluator with ALL its primitives (`\def \gdef \newcommand \renewcommand \let \csname \endcsname \expandafter
-    \relax \begingroup \endgroup`, braces), i.e. `texProgram` restricted by `fragOk` only.  For every program and every fuel:
-    if it prints `v`, then `runProgramRepaired` — the model started in its own initial frame `initEnv` — prints `v` for all
-    sufficiently large fuel.  `\expandafter` in front of macros, `\csname`, further `\expandafter`s and unexpandable tokens is
-    covered.  Missing towards `run_eq_texRun_statement`: (1) the code as is (false there: D49, see `asIs_counterexample_D49`);
-    (2) the `fragOk` restrictions (see `run_eq_texRun_statement`). -/
+/-- **Program-level equality for the whole macro language with `\ifx` (repaired variant of D49).**
+    `texRun fragOk … ⟨p, condTable, []⟩` is the Spec's evaluator with ALL its primitives (`\def \gdef \newcommand \renewcommand \let
+    \csname \endcsname \expandafter \relax \begingroup \endgroup`, braces, and the conditional `\ifx … \else … \fi` of NF-prog 4/6),
+    i.e. the correspondence's oracle `texProgramC` restricted by `fragOk` only.  For every program and every fuel: if it prints
+    `v`, then `runProgramRepaired` — the model started in its own initial frame `initEnv` — prints `v` for all sufficiently
+    large fuel.  Covered: macros of both kinds with any parameter texts, local/global definitions, aliases, groups, `\csname`,
+    `\expandafter` chains, and conditionals (comparison of characters / plain-text macros, nested conditionals, with or
+    without `\else`, the branch taken from `TeX.processIfContent`'s scan).  Missing towards `run_eq_texRun_statement`:
+    (1) the code as is (false there: D49, see `asIs_counterexample_D49`); (2) the `fragOk` restriction (see there). -/
 theorem run_eq_texRun_language_partial (fuel : Nat) (p : List Tok) (v : List Nat)
-    (h : texRun fragOk fuel ⟨p, primTable, []⟩ = .ok v) :
+    (h : texRun fragOk fuel ⟨p, condTable, []⟩ = .ok v) :
     ∃ F, ∀ k, runProgramRepaired (F + k) p = .ok v := by
   obtain ⟨F, hF⟩ := run_of_texRun_language fuel p v h
   exact ⟨F, fun k => run_mono true F k _ v hF⟩
 
-/-- the fragment evaluator is the Spec's evaluator: a run under `fragOk` is a run of `texProgram` with the same result -/
+/-- the fragment evaluator is the oracle: a run under `fragOk` is a run of `texProgramC` with the same result -/
 theorem fragment_run_is_texProgram_partial (fuel : Nat) (p : List Tok) (v : List Nat)
-    (h : texRun fragOk fuel ⟨p, primTable, []⟩ = .ok v) : texProgram fuel p = .ok v :=
+    (h : texRun fragOk fuel ⟨p, condTable, []⟩ = .ok v) : texProgramC fuel p = .ok v :=
   texRun_weaken fragOk (fun _ _ => true) (fun _ _ _ => rfl) fuel _ v h
 
 /-- `\newcommand\a[2][D]{(#1,#2)}\def\b{pq}\expandafter\a\b\csname a\endcsname[o]y` prints `(D,p)q(o,y)` -/
@@ -484,14 +486,14 @@ def langExample : List Tok :=
    cs "expandafter", cs "a", cs "b",
    cs "csname", lt 'a', cs "endcsname", ot '[', lt 'o', ot ']', lt 'y']
 
-example : (texRun fragOk 30 ⟨langExample, primTable, []⟩).toOption = some ("(D,p)q(o,y)".toList.map Char.toNat) := by rfl
-example : texProgram 30 langExample = .ok ("(D,p)q(o,y)".toList.map Char.toNat) :=
+example : (texRun fragOk 30 ⟨langExample, condTable, []⟩).toOption = some ("(D,p)q(o,y)".toList.map Char.toNat) := by rfl
+example : texProgramC 30 langExample = .ok ("(D,p)q(o,y)".toList.map Char.toNat) :=
   fragment_run_is_texProgram_partial 30 langExample _ (by rfl)
 set_option maxHeartbeats 1000000 in
 example : runProgramRepaired 30 langExample = .ok ("(D,p)q(o,y)".toList.map Char.toNat) := by rfl
 
 /-- `\def\b{pq}\expandafter\relax\b` (an unexpandable first token stays, the second is expanded once): prints `pq` -/
-example : (texRun fragOk 12 ⟨[cs "def", cs "b", bgT, lt 'p', lt 'q', egT, cs "expandafter", cs "relax", cs "b"], primTable, []⟩).toOption
+example : (texRun fragOk 12 ⟨[cs "def", cs "b", bgT, lt 'p', lt 'q', egT, cs "expandafter", cs "relax", cs "b"], condTable, []⟩).toOption
     = some [112, 113] := by rfl
 
 /-! ## `\ifx` (NF-prog 4) -/
@@ -520,7 +522,37 @@ def ifxExample : List Tok :=
    cs "ifx", cs "a", cs "c", lt 'T', cs "else", lt 'F', cs "fi", cs "ifx", cs "a", cs "a", lt 'S', cs "fi"]
 
 example : (texProgramC 30 ifxExample).toOption = some [70, 83] := by rfl
+example : (texRun fragOk 30 ⟨ifxExample, condTable, []⟩).toOption = some [70, 83] := by rfl
+example : runProgramRepaired 40 ifxExample = .ok [70, 83] := by rfl
 example : runProgram 40 ifxExample = .ok [70, 83] := by rfl
+
+/-- **Branch selection is TeX's (NF-prog 6).**  Wherever TeX's skipping of conditional text is defined (`texBranches`: nesting
+    by the MEANING of tokens; it is undefined on a token whose name and meaning disagree — `condNamesOk`: `\if…` names are
+    conditionals, `\fi` is `\fi`, `\else` is `\else`, no `\newif`, no `\or` — which is NF-prog 6 made precise, cf. observation
+    O4), the scan of `TeX.processIfContent` (nesting by NAME) returns exactly the text TeX would process if the test is true,
+    exactly the text it would process if it is false, and stops exactly after the matching `\fi` — for any nesting depth, with
+    or without `\else`.  Used in `run_eq_texRun_language_partial`. -/
+theorem branch_selection_is_tex_partial (tbl : Table) (r tb fb after : List Tok)
+    (h : texBranches tbl 0 false [] [] r = some (tb, fb, after)) (b : Bool) :
+    ifChoose (ifScan 0 [] [] r).1 b ++ (ifScan 0 [] [] r).2 = (if b then tb else fb) ++ after :=
+  ifScan_is_texBranches tbl r tb fb after h b
+
+/-- `T \ifx ab U\fi \else F\fi rest`: a nested conditional inside the first branch, an `\else`, the rest -/
+example : ifScan 0 [] [] [lt 'T', cs "ifx", lt 'a', lt 'b', lt 'U', cs "fi", cs "else", lt 'F', cs "fi", lt 'r']
+    = ([[lt 'T', cs "ifx", lt 'a', lt 'b', lt 'U', cs "fi"], [lt 'F']], [lt 'r']) := by decide
+example : texBranches condTable 0 false [] [] [lt 'T', cs "ifx", lt 'a', lt 'b', lt 'U', cs "fi", cs "else", lt 'F', cs "fi", lt 'r']
+    = some ([lt 'T', cs "ifx", lt 'a', lt 'b', lt 'U', cs "fi"], [lt 'F'], [lt 'r']) := by decide
+example : ∀ t ∈ [lt 'T', cs "ifx", lt 'a', lt 'b', lt 'U', cs "fi", cs "else", lt 'F', cs "fi", lt 'r'], condAgree condTable t = true := by decide
+
+/-- **One `\ifx … \fi` in the model = one in TeX (NF-prog 4 and 6)**: operands that TeX classifies as two characters or two
+    plain-text macros, a conditional text on which names and meanings agree: after `\ifx t₁ t₂`, the loop continues exactly on
+    the branch TeX selects followed by what follows the matching `\fi` (`texRun` performs the same rewriting of its input). -/
+theorem ifx_step_refines_partial (fx : Bool) (G : Nat) (name nmP : Name) (t1 t2 : Tok) (r tb fb after : List Tok) (env : Env)
+    (tbl : Table) (hg : Good fx env tbl) (hl : lookup name env = some (.prim .ifx nmP)) (k1 k2 : IfxKind) (b : Bool)
+    (h1 : ifxKind tbl t1 = some k1) (h2 : ifxKind tbl t2 = some k2) (hb : ifxAgree k1 k2 = some b)
+    (hbr : texBranches tbl 0 false [] [] r = some (tb, fb, after)) :
+    invoke fx (G + 1) name (t1 :: t2 :: r) env = next fx G ⟨(if b then tb else fb) ++ after, env⟩ :=
+  ifx_step fx G name nmP t1 t2 r tb fb after env tbl hg hl k1 k2 b h1 h2 hb hbr
 
 /-! ## statement kept at full strength, not proved -/
 
@@ -537,6 +569,6 @@ def namesOk (n : Name) (_ : TMeaning) : Bool := !reservedNames.contains n
     are exercised by the `prog` correspondence stream only. -/
 def run_eq_texRun_statement : Prop :=
   ∀ (fuel : Nat) (p : List Tok) (v : List Nat),
-    texRun namesOk fuel ⟨p, primTable, []⟩ = .ok v → ∃ fuel', ∀ k, runProgramRepaired (fuel' + k) p = .ok v
+    texRun namesOk fuel ⟨p, condTable, []⟩ = .ok v → ∃ fuel', ∀ k, runProgramRepaired (fuel' + k) p = .ok v
 
 end PlasVerif.Properties.C02
